@@ -634,6 +634,33 @@ def fix_lengths(ex, st, s):
     yield from go(st, 0, [])
 
 
+@model(r'^(?:core::)?str::<impl str>::(find|rfind)::<char>$')
+def str_find_char(ctx, args, st):
+    """byte offset of the first (last) occurrence of a concrete char"""
+    s = str_of(st, args[0]); c = _char_arg(args[1])
+    if s.facts is not None: raise Unsupported('find on an abstract string')
+    rev = 'rfind' in ctx.callee
+    def g():
+        for s1, lens in fix_lengths(ctx.ex, st, s):
+            offs = []; off = 0
+            for l in lens: offs.append(off); off += l
+            order = list(range(len(s.chars)))
+            if rev: order.reverse()
+            def go(s_, k):
+                if k == len(order):
+                    yield s_, 'ret', NONE; return
+                i = order[k]; x = s.chars[i]
+                if isinstance(x, int):
+                    if x == c: yield s_, 'ret', Some(Int(offs[i], 'usize'))
+                    else: yield from go(s_, k + 1)
+                    return
+                for s2, hit in ctx.ex.fork_bool(s_, x == c):
+                    if hit: yield s2, 'ret', Some(Int(offs[i], 'usize'))
+                    else: yield from go(s2, k + 1)
+            yield from go(s1, 0)
+    return g()
+
+
 @model(r'^(?:core::)?str::<impl str>::char_indices$')
 def str_char_indices(ctx, args, st):
     from .iters import mk_list_iter
